@@ -5,6 +5,8 @@ sys.path.insert(0, os.path.dirname(os.path.dirname(os.path.abspath(__file__))))
 from sa.manifest_table import CLAIMS, NOT_APPLICABLE, ENGINES
 
 BASE = "cd /repo && /venv/bin/python -m pytest -ra -q -p no:cacheprovider --timeout=900 --continue-on-collection-errors"
+MEMO = (" Also decided (rule <id>.memo): every module-level dict memo filled by a function this check analyses, or by anything such a function reaches, "
+        "is keyed by everything its entries and the tests before the store depend on, and its arrays are not edited in place (DEP domain; the pinned tree has no such memo).")
 checks = []
 for pid in sorted(CLAIMS):
     c = CLAIMS[pid]
@@ -15,7 +17,7 @@ for pid in sorted(CLAIMS):
         "evidence_file": "/verif/evidence/%s.json" % pid,
         "replay_cmd_template": "./check %s --replay {path}" % pid,
         "engine": c["engine"],
-        "level_claimed": {"category": "other", "text": c["text"], "design_ref": c.get("design_ref", "DESIGN.md section 4, " + pid)},
+        "level_claimed": {"category": "other", "text": c["text"] + MEMO, "design_ref": c.get("design_ref", "DESIGN.md section 4, " + pid + "; sections 9.5b/9.5c for the rules re-stated on the interpretation")},
         "level_note": c["note"],
         "technique": c["technique"],
     })
